@@ -113,7 +113,11 @@ func (b *Built) Cleanup() {
 }
 
 // Build - define the program. Panics of the library propagate to the caller.
-func Build(cfg *Cfg) *Built {
+func Build(cfg *Cfg) *Built { return BuildWith(cfg, nil) }
+
+// BuildWith - like Build; beforeHelp (if any) runs when everything but the help command / option has been declared
+// (a two-pass program parses once before it knows all its options).
+func BuildWith(cfg *Cfg, beforeHelp func(b *Built)) *Built {
 	b := &Built{Cfg: cfg, CtxTag: new(int)}
 	os.Args = []string{FromAtoms(cfg.Prog)}
 	if cfg.Self {
@@ -156,6 +160,9 @@ func Build(cfg *Cfg) *Built {
 		if cfg.Nodes[0].Ro {
 			root.SetRequireOrder()
 		}
+	}
+	if beforeHelp != nil {
+		beforeHelp(b)
 	}
 	if h := cfg.HelpOpt(); h != 0 {
 		o := cfg.Opts[h-1]
@@ -290,7 +297,12 @@ func (b *Built) defineOpt(i int, g *getoptions.GetOpt) {
 		free = append(free, g.ArgName(FromAtoms(o.ArgName)))
 	}
 	if o.Req {
-		if o.HasMsg {
+		if o.HasMsg && o.ModLast {
+			// the message comes from a buffer the program reuses as soon as it has the modifier in hand
+			buf := []string{FromAtoms(o.ReqMsg)}
+			free = append(free, g.Required(buf...))
+			buf[0] = "overwritten by the caller"
+		} else if o.HasMsg {
 			free = append(free, g.Required(FromAtoms(o.ReqMsg)))
 		} else {
 			free = append(free, g.Required())
